@@ -68,6 +68,21 @@ def hwmonStep (st : HwmonDrvSt) (op : String) (a : KV) : HwmonDrvSt × String :=
     | .ok p => (st, s!"ok input={p}")
     | .err _ => (st, "err")
     | .panic s => (st, s!"panic:{panicClass s}")
+  | "hw.bindsensors" =>
+    -- several entries in one `initializeSensors` call: the loop binds each entry independently and the call fails
+    -- with the first entry that has no device
+    let sels : List SensorSel := ((a.str "sels" "").splitOn ";").filterMap fun t =>
+      match t.splitOn ":" with
+      | [p, i] => some { platform := p, index := (i.toInt?).getD 0 }
+      | _ => none
+    let rec go (i : Nat) (acc : List String) : List SensorSel → String
+      | [] => "ok inputs=" ++ ",".intercalate acc.reverse
+      | sel :: rest =>
+        match bindSensor ciContains st.chips sel with
+        | .ok p => go (i + 1) (p :: acc) rest
+        | .err _ => s!"err at={i}"
+        | .panic s => s!"panic:{panicClass s}"
+    (st, go 0 [] sels)
   | _ => (st, "bad-op")
 
 end Driver
